@@ -202,6 +202,10 @@ pub fn run_job(job: &Value, slot: u32, serial: u32, progress: &Progress) -> JobO
     });
     let t0 = Instant::now();
     let threads_before = count_threads();
+    if job["selftest_leak"].as_bool().unwrap_or(false) {
+        // self-test of the thread-leak check: a thread that outlives the job
+        std::thread::spawn(|| std::thread::sleep(Duration::from_secs(8)));
+    }
     let nhosts = cfgs.len();
     let mut handles = vec![];
     for (h, cfg) in cfgs.into_iter().enumerate() {
